@@ -441,6 +441,48 @@ class Session:
         return info
 
 
+def term_symbols(e, acc=None, seen=None):
+    """uninterpreted constants and applications (by term) occurring in e"""
+    acc = set() if acc is None else acc
+    seen = set() if seen is None else seen
+    stack = [e]
+    while stack:
+        t = stack.pop()
+        i = t.get_id()
+        if i in seen:
+            continue
+        seen.add(i)
+        if z3.is_quantifier(t):
+            stack.append(t.body())
+            continue
+        if z3.is_app(t):
+            if t.decl().kind() == z3.Z3_OP_UNINTERPRETED:
+                if not (t.num_args() == 0 and t.decl().name() == 'pi_c'):
+                    acc.add(t.get_id() if t.num_args() else t.decl().name())
+            stack.extend(t.children())
+    return acc
+
+
+def focus_hyps(hyps, goal, level):
+    """level 1: hypotheses all of whose symbols occur in the goal;
+    level n>1: n-1 rounds of adding hypotheses that share a symbol with the growing set"""
+    syms = term_symbols(goal)
+    hs = [(h, term_symbols(h)) for h in hyps]
+    if level == 1:
+        return [h for h, ss in hs if ss <= syms]
+    chosen = [False] * len(hs)
+    for _ in range(level - 1):
+        new = set()
+        for i, (h, ss) in enumerate(hs):
+            if not chosen[i] and (ss & syms or not ss):
+                chosen[i] = True
+                new |= ss
+        if not new - syms:
+            break
+        syms |= new
+    return [h for (h, _), c in zip(hs, chosen) if c]
+
+
 class Ctx:
     """One target exploration.  See module docstring."""
 
@@ -626,8 +668,13 @@ class Ctx:
         e = Sym.lift(f)
         self.pc.append(e)
 
-    def oblige(self, kind, label, goal, expect="valid", meta=None):
-        """record obligation `<target>.<kind>.<label>`: hyps => goal"""
+    def oblige(self, kind, label, goal, expect="valid", meta=None, trig=None, focus=None, timeout_ms=None,
+               nohyps=False):
+        """record obligation `<target>.<kind>.<label>`: hyps => goal
+
+        trig : expand sin/cos applications (pyvc/trig.py) in hypotheses and goal
+        focus: keep only hypotheses connected to the goal through shared symbols
+               within `focus` steps (dropping hypotheses is always sound)"""
         name = "%s.%s.%s" % (self.target, kind, label)
         if goal is True:
             g = z3.BoolVal(True)
@@ -635,7 +682,15 @@ class Ctx:
             g = z3.BoolVal(False)
         else:
             g = Sym.lift(goal)
-        hyps = list(self.axioms) + list(self.pc)
+        hyps = [] if nohyps else list(self.axioms) + list(self.pc)
+        if focus:
+            hyps = focus_hyps(hyps, g, focus)
+        if (self.trig if trig is None else trig):
+            from . import trig as _trig
+            hyps, g = _trig.normalise(hyps, g)
+        meta = dict(meta or {})
+        if timeout_ms:
+            meta['timeout_ms'] = timeout_ms
         key = (name, tuple(h.get_id() for h in hyps), g.get_id(), expect)
         if key in self._seen:
             return
@@ -2097,6 +2152,18 @@ def b_map(ctx, f, *xs):
     return [ctx.interp.call(f, list(t), {}) for t in zip(*cols)]
 
 
+def b_divmod(ctx, a, b):
+    if isinstance(a, (Opaque, NaNType)) or isinstance(b, (Opaque, NaNType)):
+        return (Opaque("divmod"), Opaque("divmod"))
+    if not isinstance(b, Sym) and b == 0:
+        raise PyRaise(ExcValue('ZeroDivisionError'))
+    if isinstance(a, float) and isinstance(b, Sym):
+        a = Fraction(repr(a))
+    if isinstance(b, float) and isinstance(a, Sym):
+        b = Fraction(repr(b))
+    return (a // b, a % b)
+
+
 def b_reversed(ctx, xs):
     return list(reversed(ctx.interp.iterate(xs)))
 
@@ -2111,7 +2178,7 @@ BUILTINS = {
     'tuple': Model(b_tuple, 'tuple'), 'str': Model(b_str, 'str'), 'sorted': Model(b_sorted, 'sorted'),
     'hasattr': Model(b_hasattr, 'hasattr'), 'getattr': Model(b_getattr, 'getattr'),
     'dict': Model(b_dict, 'dict'), 'type': Model(b_type, 'type'), 'id': Model(b_id, 'id'),
-    'map': Model(b_map, 'map'), 'reversed': Model(b_reversed, 'reversed'),
+    'map': Model(b_map, 'map'), 'reversed': Model(b_reversed, 'reversed'), 'divmod': Model(b_divmod, 'divmod'),
     'True': True, 'False': False, 'None': None,
 }
 
@@ -2123,6 +2190,7 @@ def MODELS_SQRT(ctx, x):
 
 # defaults on Ctx used by interp
 Ctx.check_div = False
+Ctx.trig = False
 Ctx.float_rounding = None
 
 
